@@ -1,4 +1,5 @@
-(* C17 - the histories of the harness that use only checked constructors / resizers leave a well-formed object. *)
+(* C17 - every history of the harness that goes through checked constructors / resizers / the (repaired) reader leaves a
+   well-formed object; the only exception is from_data of the layouts that still do not validate their buffer. *)
 From PV Require Import Base.MachineInt Model.C12Scratch Model.C17Mem Model.C17Run Proofs.C17Bounds.
 Open Scope Z_scope.
 
@@ -10,40 +11,86 @@ Proof.
   assert (0 <= n * (cols * size) * w) by nia. repeat split; try lia; nia.
 Qed.
 
-Lemma safe_histories_inv (vec : bool) (n cols size w hist hp1 hp2 : Z) (v : vhdr) :
-  0 <= n -> 0 <= cols -> 0 <= size -> 0 < w -> 0 <= hp1 -> 0 <= hp2 ->
-  hist = 0 \/ hist = 1 \/ hist = 2 \/ hist = 7 \/ hist = 8 ->
-  hist_hdr vec n cols size w (cols * size) hist hp1 hp2 = HOk v -> wf_v v /\ Inv v.
+Lemma grow_inv (rc : vhdr) (h : stream_hdr) (avail : Z) (g : bool) (v : vhdr) :
+  wf_v rc -> v_w rc = 8 -> wf_s h -> grow (v_read_from rc h avail) rc g = HOk v -> wf_v v /\ Inv v.
 Proof.
-  intros Hn Hc Hs Hw H1 H2 Hh. unfold hist_hdr.
-  destruct Hh as [-> | [-> | [-> | [-> | ->]]]]; cbn [Z.eqb orb].
-  - intros E; inversion E; subst. apply plain_inv; assumption.
-  - intros E; inversion E; subst. unfold wf_v, Inv; cbn.
-    assert (0 <= n * cols) by nia.
-    assert (n * cols * size * w <= n * cols * (size + hp1) * w) by nia.
-    assert (0 <= n * cols * (size + hp1) * w) by nia. repeat split; lia.
-  - destruct vec; cbn [negb]; [|discriminate]. intros E; inversion E; subst.
-    destruct (alloc_inv n cols hp2 8 Hn Hc H2 ltac:(lia)) as (A & B).
-    destruct (realloc_inv (v_alloc n cols hp2 8) size A B Hs) as (C & D & _). auto.
-  - intros E; inversion E; subst. apply plain_inv; assumption.
-  - intros E; inversion E; subst. apply plain_inv; assumption.
+  intros Hwf Hw8 Hs. destruct (v_read_from rc h avail) as [|v'] eqn:E; cbn [grow]; [discriminate|].
+  destruct (read_from_establishes_inv rc v' h avail Hwf Hw8 Hs E) as (A & B & _).
+  destruct g.
+  - destruct (v_set_size v' (v_max v')) as [g'|] eqn:Eg; [|discriminate]. intros R; inversion R; subst.
+    destruct A as (An & Ac & As & Am & Al & Aw).
+    destruct (set_size_preserves_inv v' v (v_max v') (conj An (conj Ac (conj As (conj Am (conj Al Aw))))) B Am Eg) as (C & D & _). auto.
+  - intros R; inversion R; subst. auto.
 Qed.
 
-(* deserialisation histories: well formed exactly when the writer's capacity fits the receiver's buffer *)
-Lemma deser_history_inv_iff (n cols size hp1 hp2 : Z) (v : vhdr) :
-  0 <= n -> 0 <= cols -> 0 <= size -> 0 <= hp1 -> 0 <= hp2 -> n * cols * (size + hp1) * 8 < U64 ->
-  hist_hdr true n cols size 8 (cols * size) 3 hp1 hp2 = HOk v ->
-  (Inv v <-> n * cols * (size + hp1) * 8 <= round64 (n * cols * (size + hp2) * 8)).
+Lemma write_hdr_wf (v : vhdr) : wf_v v -> wf_s (v_write_hdr v).
+Proof. intros (Hn & Hc & Hs & Hm & _). unfold wf_s, v_write_hdr; cbn. auto. Qed.
+
+Lemma set_field_wf (h : stream_hdr) (k x : Z) : wf_s h -> 0 <= x -> wf_s (set_field h k x).
 Proof.
-  intros Hn Hc Hs H1 H2 Hb. unfold hist_hdr. cbn [Z.eqb orb negb].
-  unfold v_set_size, v_alloc; cbn [v_max v_n v_cols v_len v_w v_size].
-  destruct (Z.leb_spec size (size + hp1)); [|lia].
-  unfold v_write_hdr, v_read_from, grow; cbn [sh_n sh_cols sh_size sh_max sh_len v_n v_cols v_size v_max v_len v_w].
-  assert (0 <= n * cols) by nia.
-  assert (0 <= n * cols * size * 8 <= n * cols * (size + hp1) * 8) as Hr by nia.
-  rewrite Z.mod_small by lia. rewrite Z.eqb_refl. cbn [negb].
-  pose proof (round64_ge (bytes_of n cols (size + hp2) 8)) as Hg. unfold bytes_of in *.
-  assert (n * cols * size * 8 <= n * cols * (size + hp2) * 8) by nia.
-  destruct (Z.ltb_spec (round64 (n * cols * (size + hp2) * 8)) (n * cols * size * 8)); [lia|].
-  rewrite Z.ltb_irrefl. intros E; inversion E; subst; clear E. unfold Inv; cbn. split; intros; [tauto | repeat split; lia].
+  intros (Hn & Hc & Hs & Hm) Hx. unfold set_field, wf_s.
+  destruct (k =? 0); [cbn; auto|]. destruct (k =? 1); [cbn; auto|]. destruct (k =? 2); [cbn; auto|].
+  destruct (k =? 3); cbn; auto.
+Qed.
+
+Lemma refactor_nonneg (n cols size how : Z) :
+  0 <= n -> 0 <= cols -> 0 <= size ->
+  let '(n2, c2, s2) := refactor n cols size how in 0 <= n2 /\ 0 <= c2 /\ 0 <= s2.
+Proof.
+  intros Hn Hc Hs. unfold refactor.
+  destruct ((how =? 0) && (2 <=? n)); [repeat split; lia|].
+  destruct ((how =? 1) && (cols mod 2 =? 0)); [repeat split; lia|].
+  destruct (how =? 2); [repeat split; lia|]. destruct (how =? 3); [repeat split; nia|].
+  destruct (how =? 4); repeat split; nia.
+Qed.
+
+(* all histories: fresh view, shrink, reallocate, write/read with any capacities, corrupted header, grown to max_size,
+   carved, shifted, header refactored, other ring degree, and from_data of a layout that validates (chk) *)
+Lemma histories_inv (vec chk : bool) (n cols size w hist hp1 hp2 : Z) (v : vhdr) :
+  0 <= n -> 0 <= cols -> 0 <= size -> 0 < w -> 0 <= hp1 -> 0 <= hp2 ->
+  (hist = 9 -> chk = true) ->
+  hist_hdr vec chk n cols size w (cols * size) hist hp1 hp2 = HOk v -> wf_v v /\ Inv v.
+Proof.
+  intros Hn Hc Hs Hw H1 H2 H9. unfold hist_hdr.
+  destruct (Z.eqb_spec hist 0); [intros E; inversion E; subst; apply plain_inv; assumption|].
+  destruct (Z.eqb_spec hist 1).
+  { intros E; inversion E; subst. unfold wf_v, Inv; cbn.
+    assert (0 <= n * cols) by nia.
+    assert (n * cols * size * w <= n * cols * (size + hp1) * w) by nia.
+    assert (0 <= n * cols * (size + hp1) * w) by nia. repeat split; lia. }
+  destruct ((hist =? 7) || (hist =? 8)); [intros E; inversion E; subst; apply plain_inv; assumption|].
+  destruct (Z.eqb_spec hist 9).
+  { rewrite (H9 e). destruct (v_from_data_checked (Z.max 0 (n * (cols * size) * w - 8 * hp1)) n cols size w) as [v0|] eqn:E0; [|discriminate].
+    intros E; inversion E; subst.
+    apply (from_data_checked_inv (Z.max 0 (n * (cols * size) * w - 8 * hp1)) n cols size w v); try assumption. lia. }
+  destruct (Z.eqb_spec hist 11).
+  { intros E; inversion E; subst. destruct (hp1 =? 0); apply plain_inv; try assumption; lia. }
+  destruct vec; cbn [negb]; [|discriminate].
+  destruct (Z.eqb_spec hist 2).
+  { intros E; inversion E; subst.
+    destruct (alloc_inv n cols hp2 8 Hn Hc H2 ltac:(lia)) as (A & B).
+    destruct (realloc_inv (v_alloc n cols hp2 8) size A B Hs) as (C & D & _). auto. }
+  destruct ((hist =? 3) || (hist =? 4)).
+  { destruct (v_set_size (v_alloc n cols (size + hp1) 8) size) as [wr|] eqn:Ew; [|discriminate].
+    destruct (alloc_inv n cols (size + hp1) 8 Hn Hc ltac:(lia) ltac:(lia)) as (A & B).
+    destruct (set_size_preserves_inv _ _ _ A B Hs Ew) as (C & _).
+    destruct (alloc_inv n cols (size + hp2) 8 Hn Hc ltac:(lia) ltac:(lia)) as (A2 & _).
+    apply grow_inv; [exact A2 | reflexivity | apply write_hdr_wf; exact C]. }
+  destruct ((hist =? 5) || (hist =? 6)).
+  { destruct (alloc_inv n cols size 8 Hn Hc Hs ltac:(lia)) as (A & _).
+    apply grow_inv; [exact A | reflexivity |].
+    apply set_field_wf; [apply write_hdr_wf; exact A|]. apply Z.mod_pos_bound. unfold U64. lia. }
+  destruct (Z.eqb_spec hist 10); [|discriminate].
+  pose proof (refactor_nonneg n cols size hp1 Hn Hc Hs) as Hr.
+  destruct (refactor n cols size hp1) as [[rn rc] rs].
+  destruct (alloc_inv n cols size 8 Hn Hc Hs ltac:(lia)) as (A & _).
+  apply grow_inv; [exact A | reflexivity |]. unfold wf_s; cbn. tauto.
+Qed.
+
+(* what remains open: from_data of VecZnxBig / VecZnxDft / SvpPPol / MatZnx / VmpPMat / CnvPVec on a short buffer *)
+Lemma history_from_data_unchecked_refuted :
+  exists n cols size w hp1 v, 0 < w /\ hist_hdr false false n cols size w (cols * size) 9 hp1 0 = HOk v /\ ~ Inv v.
+Proof.
+  exists 4, 1, 1, 16, 1, (mkV 4 1 1 1 56 16). split; [lia|]. split; [vm_compute; reflexivity|].
+  unfold Inv; cbn. lia.
 Qed.
